@@ -38,7 +38,8 @@ def run(prog, an, rep):
     rep.run_rules(prog, an, [merge_paths_before_pruning, compare_branches_table, dev_lt_table,
                              compare_queues_table, sorted_by_comparators,
                              duplicate_rejected, hotfix_admission,
-                             rejection_guards, target_version_cases,
+                             rejection_guards, finalize_rejects_lines,
+                             target_version_cases,
                              accumulators_monotone])
 
 
@@ -361,6 +362,42 @@ def _cascade_loop(f):
             return n, n.target.elts[1].id
     raise AnalysisError('anchor-missing loop over self._cascade.items() in '
                         + f.qname)
+
+
+def _cascade_loops(f):
+    out = []
+    for n in walk_local(f.node, include_root=False):
+        if isinstance(n, ast.For) and isinstance(n.target, ast.Tuple) and \
+                len(n.target.elts) == 2 and \
+                isinstance(n.target.elts[1], ast.Name) and \
+                'self._cascade.items()' in src(n.iter):
+            out.append((n, n.target.elts[1].id))
+    return out
+
+
+def finalize_rejects_lines(prog, an, rep):
+    """Whatever the destination, every walk of finalize over the lines of
+    the cascade rejects a line that has neither a development nor a hotfix
+    branch (a dangling stabilization branch)."""
+    R = 'C09.REG.rejections'
+    f = need_func(an, BR + '.BranchCascade.finalize')
+    loops = _cascade_loops(f)
+    rep.floor('C09 walks over the cascade in finalize', len(loops), 1)
+    K = ('DevelopmentBranch', 'StabilizationBranch', 'HotfixBranch')
+    for loop, holder in loops:
+        for stb in (True, False):
+            rep.evaluated()
+            env = kind_env(holder, dict(zip(K, (False, stb, False))))
+            got = iteration_outcomes(an, f, loop, env)
+            names = {(o[0],) + tuple(str(x).rpartition('.')[2]
+                                     for x in o[1:]) for o in got}
+            rep.check(names == {('raise', 'DevBranchDoesNotExist')}, R,
+                      '%s: a line without development and hotfix branch '
+                      '(stab=%s) is rejected' % (f.qname, stb),
+                      f.where(loop), 'a version line with neither a '
+                      'development nor a hotfix branch (stab=%s) leads to '
+                      '%s in this walk (required: DevBranchDoesNotExist)'
+                      % (stb, sorted(map(str, names))))
 
 
 def rejection_guards(prog, an, rep):
